@@ -1,9 +1,12 @@
-"""Framework self-tests run by setup.sh: virtual-vs-real multiprocessing conformance."""
+"""Framework self-tests run by setup.sh: virtual-vs-real multiprocessing conformance and
+state-key soundness (stateful vs unmerged exploration)."""
 import os
 import subprocess
 import sys
 
 HERE = os.path.dirname(os.path.abspath(__file__))
 env = dict(os.environ, PYTHONHASHSEED="0", PYTHONDONTWRITEBYTECODE="1")
-rc = subprocess.call(["/venv/bin/python", "-W", "ignore", os.path.join(HERE, "vmp_conformance.py")], env=env)
+rc = 0
+for script in ("vmp_conformance.py", "key_soundness.py"):
+    rc |= subprocess.call(["/venv/bin/python", "-W", "ignore", os.path.join(HERE, script)], env=env)
 sys.exit(rc)
